@@ -356,7 +356,10 @@ example : (sendGate false false true true none ((Bucket.new 3 1 1 0).allow 0).2 
 `sendLimiterMu`; the only place one is abandoned is its `cancel` closure, which re-reads the clock under
 the same lock (`CancelAt(time.Now())`, never the reservation's own stale instant: handing the token back
 at a stale instant moves the limiter's clock backwards and the interval in between is credited twice -
-the out-of-order-instant counterexample of this file). -/
+the out-of-order-instant counterexample of this file), and only when no token has been handed back
+since the reservation was made (repair F14: x/time/rate derives what a cancellation restores from the
+limiter's last event, which `AllowN(now, -1)` moves back to now; `C20.giveback_then_cancel_breaks_bound`
+in Props/C20Cancel is the kept counterexample). -/
 def idxL (l : List String) (x : String) : Nat := l.findIdx (· == x)
 
 theorem C20.src_reservation_instants :
@@ -366,8 +369,12 @@ theorem C20.src_reservation_instants :
     Gen.evLimiterWait.getD (idxL Gen.evLimiterWait "l.ReserveN" - 1) "" = "time.Now" ∧
     Gen.evLimiterWait.getD (idxL Gen.evLimiterWait "l.ReserveN" + 1) "" = "sendLimiterMu.Unlock" ∧
     Gen.evLimiterWait.getD (idxL Gen.evLimiterWait "r.CancelAt" - 1) "" = "time.Now" ∧
-    Gen.evLimiterWait.getD (idxL Gen.evLimiterWait "r.CancelAt" - 2) "" = "sendLimiterMu.Lock" ∧
-    Gen.evLimiterWait.getD (idxL Gen.evLimiterWait "r.CancelAt" + 1) "" = "sendLimiterMu.Unlock" := by
+    Gen.evLimiterWait.getD (idxL Gen.evLimiterWait "r.CancelAt" - 2) "" = "then{" ∧
+    Gen.evLimiterWait.getD (idxL Gen.evLimiterWait "r.CancelAt" - 3) "" = "if:giveBacks == sendLimiterGiveBacks" ∧
+    Gen.evLimiterWait.getD (idxL Gen.evLimiterWait "r.CancelAt" - 4) "" = "sendLimiterMu.Lock" ∧
+    Gen.evLimiterWait.getD (idxL Gen.evLimiterWait "r.CancelAt" + 1) "" = "}" ∧
+    Gen.evLimiterWait.getD (idxL Gen.evLimiterWait "r.CancelAt" + 2) "" = "sendLimiterMu.Unlock" ∧
+    Gen.limiterGiveBackCounts = ["ratelimit_serial.go:limiterGiveBack"] := by
   decide +kernel
 
 end Dht
